@@ -41,38 +41,40 @@ def withFid (fid : Nat) (body : Nat → M Reply) : M Reply := do
   | none => return rerr EBADF
   | some r => finally' (body r) (decRefU r)
 
+abbrev WalkRes := Except Nat (List Nat × Nat × Nat × List Nat)
+
+/-- the `default:` branch of `walkOne`: `Walk`, then (if asked) `GetAttr` on the new file -/
+def walkViaWalk (fromH : Nat) (names : List SafeName) (getattr : Bool) : M WalkRes := do
+  match ← call fromH "Walk" [] [] names with
+  | .ok is _ _ =>
+    let s1 ← getS
+    let h := s1.nextHandle
+    modS fun s => { s with nextHandle := s.nextHandle + 1 }
+    if getattr then
+      match ← call h "GetAttr" [attrMaskAll] with
+      | .ok as _ _ => return .ok (is, h, as.getD 3 0, as.drop 4)
+      | .err e =>
+        let _ ← callClose h                -- "Don't leak the file."
+        return .error e
+      | .panic => return .error EIO
+    else return .ok (is, h, 0, [])
+  | .err e => return .error e
+  | .panic => return .error EIO
+
 /-- `walkOne`: Except errno (new qids, handle, valid, attr ints) -/
-def walkOne (fromH : Nat) (names : List Bytes) (getattr : Bool) :
-    M (Except Nat (List Nat × Nat × Nat × List Nat)) := do
-  if names.length > 1 then return .error EINVAL
-  let s0 ← getS
-  let mut viaWalk := !getattr
-  let mut result : Except Nat (List Nat × Nat × Nat × List Nat) := .error EIO
-  if getattr then
-    match ← call fromH "WalkGetAttr" [] names with
-    | .ok is _ _ =>
-      let h := s0.nextHandle
-      modS fun s => { s with nextHandle := s.nextHandle + 1 }
-      let nq := (is.length - 19) / 3
-      result := .ok (is.take (3 * nq), h, is.getD (3 * nq) 0, is.drop (3 * nq + 1))
-    | .err e => if e == ENOSYS then viaWalk := true else result := .error e
-    | .panic => result := .error EIO
-  if viaWalk then
-    match ← call fromH "Walk" [] names with
-    | .ok is _ _ =>
-      let s1 ← getS
-      let h := s1.nextHandle
-      modS fun s => { s with nextHandle := s.nextHandle + 1 }
-      if getattr then
-        match ← call h "GetAttr" [attrMaskAll] with
-        | .ok as _ _ => result := .ok (is, h, as.getD 3 0, as.drop 4)
-        | .err e =>
-          let _ ← callClose h                -- "Don't leak the file."
-          result := .error e
-        | .panic => result := .error EIO
-      else result := .ok (is, h, 0, [])
-    | .err e => result := .error e
-    | .panic => result := .error EIO
+def walkOne (fromH : Nat) (names : List SafeName) (getattr : Bool) : M WalkRes := do
+  if names.length > 1 then return .error EINVAL      -- "We require exactly zero or one elements."
+  let result ← (if getattr then do
+      let s0 ← getS
+      match ← call fromH "WalkGetAttr" [] [] names with
+      | .ok is _ _ =>
+        let h := s0.nextHandle
+        modS fun s => { s with nextHandle := s.nextHandle + 1 }
+        let nq := (is.length - 19) / 3
+        return .ok (is.take (3 * nq), h, is.getD (3 * nq) 0, is.drop (3 * nq + 1))
+      | .err e => if e == ENOSYS then walkViaWalk fromH names getattr else return .error e
+      | .panic => return .error EIO
+    else walkViaWalk fromH names getattr : M WalkRes)
   match result with
   | .error e => return .error e
   | .ok (qs, h, valid, attr) =>
@@ -81,10 +83,34 @@ def walkOne (fromH : Nat) (names : List Bytes) (getattr : Bool) :
       return .error EINVAL
     return .ok (qs, h, valid, attr)
 
+/-- the loop of `doWalk`: one component at a time, only through directories -/
+def walkLoop : List SafeName → Nat → List Nat → Nat → List Nat → M WalkRes
+  | [], walkRef, qids, valid, attr => pure (.ok (qids, walkRef, valid, attr))
+  | name :: rest, walkRef, qids, _, _ => do
+    let wx ← getRef walkRef
+    if !isDir wx.mode then
+      decRefU walkRef                        -- "Drop walk reference; no lock required."
+      return .error EINVAL
+    if ← isDeleted walkRef then
+      decRefU walkRef
+      return .error ENOENT
+    match ← walkOne wx.file [name] true with
+    | .error e =>
+      decRefU walkRef                        -- "Drop the old walkRef."
+      return .error e
+    | .ok (qs, h, v, a) =>
+      let cn ← pathNodeFor wx.node name
+      let nr ← newRef { file := h, mode := fileType (a.getD 0 0), node := cn, parent := some walkRef }
+      addChild wx.node nr name
+      incRef nr
+      walkLoop rest nr (qids ++ qs) v a
+
 /-- `doWalk`: Except errno (qids, newRef (holding one reference), valid, attr) -/
-def doWalk (ref : Nat) (names : List Bytes) (getattr : Bool) :
-    M (Except Nat (List Nat × Nat × Nat × List Nat)) := do
-  if names.any (fun n => !safeName n) then return .error EINVAL
+def doWalk (ref : Nat) (rawNames : List Bytes) (getattr : Bool) : M WalkRes := do
+  -- "Check the names."
+  match checkNames rawNames with
+  | none => return .error EINVAL
+  | some names =>
   let x ← getRef ref
   if names.isEmpty then
     -- clone
@@ -104,32 +130,7 @@ def doWalk (ref : Nat) (names : List Bytes) (getattr : Bool) :
       return .ok ([], nr, valid, attr)
   else
     incRef ref
-    let mut walkRef := ref
-    let mut qids : List Nat := []
-    let mut valid := 0
-    let mut attr : List Nat := []
-    for name in names do
-      let wx ← getRef walkRef
-      if !isDir wx.mode then
-        decRefU walkRef
-        return .error EINVAL
-      if ← isDeleted walkRef then
-        decRefU walkRef
-        return .error ENOENT
-      match ← walkOne wx.file [name] true with
-      | .error e =>
-        decRefU walkRef
-        return .error e
-      | .ok (qs, h, v, a) =>
-        qids := qids ++ qs
-        valid := v
-        attr := a
-        let cn ← pathNodeFor wx.node name
-        let nr ← newRef { file := h, mode := fileType (a.getD 0 0), node := cn, parent := some walkRef }
-        addChild wx.node nr name
-        walkRef := nr
-        incRef nr
-    return .ok (qids, walkRef, valid, attr)
+    walkLoop names ref [] 0 []
 
 def splitSlash (s : Bytes) : List Bytes :=
   let rec go : Bytes → Bytes → List Bytes → List Bytes
@@ -204,42 +205,45 @@ def dirGuard (ref : Nat) : M (Option Nat) := do
 
 def hCreate (m : Msg) (uid : Nat) (rtyp : Nat) : M Reply := do
   -- fid name flags mode gid
-  if !safeName (m.str 1) then return rerr EINVAL
+  if hn : safeName (m.str 1) = true then
+  let name : SafeName := ⟨m.str 1, hn⟩
   withFid (m.int 0) fun ref => do
     match ← dirGuard ref with
     | some e => return rerr e
     | none =>
       let x ← getRef ref
       let s0 ← getS
-      match ← call x.file "Create" [m.int 2, m.int 3 % 4096, uid, m.int 4] [m.str 1] with
+      match ← call x.file "Create" [m.int 2, m.int 3 % 4096, uid, m.int 4] [] [name] with
       | .err e => return rerr e
       | .panic => return rerr EIO
       | .ok is _ _ =>
         let h := s0.nextHandle
         modS fun s => { s with nextHandle := s.nextHandle + 1 }
-        let cn ← pathNodeFor x.node (m.str 1)
+        let cn ← pathNodeFor x.node name
         let nr ← newRef { file := h, mode := ModeReg, opened := true, openFlags := m.int 2, node := cn, parent := some ref }
-        addChild x.node nr (m.str 1)
+        addChild x.node nr name
         incRef ref
         insertFid (m.int 0) nr
         return rmsg rtyp (ints (is.take 4))
+  else return rerr EINVAL
 
 /-- mkdir / symlink / mknod: one backend call returning a QID -/
 def hDirOp (m : Msg) (fidIx : Nat) (nameIx : Nat) (meth : String) (args : List Nat) (strs : List Bytes) (rtyp : Nat) : M Reply := do
-  if !safeName (m.str nameIx) then return rerr EINVAL
+  if hn : safeName (m.str nameIx) = true then
   withFid (m.int fidIx) fun ref => do
     match ← dirGuard ref with
     | some e => return rerr e
     | none =>
       let x ← getRef ref
-      match ← call x.file meth args strs with
+      match ← call x.file meth args strs [⟨m.str nameIx, hn⟩] with
       | .err e => return rerr e
       | .panic => return rerr EIO
       | .ok is _ _ => return rmsg rtyp (ints (is.take 3))
+  else return rerr EINVAL
 
 def hTlink (m : Msg) : M Reply := do
   -- dfid fid name
-  if !safeName (m.str 2) then return rerr EINVAL
+  if hn : safeName (m.str 2) = true then
   withFid (m.int 0) fun ref =>
     withFid (m.int 1) fun target => do
       match ← dirGuard ref with
@@ -247,15 +251,18 @@ def hTlink (m : Msg) : M Reply := do
       | none =>
         let x ← getRef ref
         let tx ← getRef target
-        match ← call x.file "Link" [tx.file] [m.str 2] with
+        match ← call x.file "Link" [tx.file] [] [⟨m.str 2, hn⟩] with
         | .err e => return rerr e
         | .panic => return rerr EIO
         | .ok _ _ _ => return rmsg 71
+  else return rerr EINVAL
 
 def hTrenameat (m : Msg) : M Reply := do
   -- olddirfid oldname newdirfid newname
-  if !safeName (m.str 1) then return rerr EINVAL
-  if !safeName (m.str 3) then return rerr EINVAL
+  if ho : safeName (m.str 1) = true then
+  if hn : safeName (m.str 3) = true then
+  let oldName : SafeName := ⟨m.str 1, ho⟩
+  let newName : SafeName := ⟨m.str 3, hn⟩
   withFid (m.int 0) fun ref =>
     withFid (m.int 2) fun target => do
       let x ← getRef ref
@@ -263,32 +270,37 @@ def hTrenameat (m : Msg) : M Reply := do
       if (← isDeleted ref) || !isDir x.mode || (← isDeleted target) || !isDir tx.mode then return rerr EINVAL
       if x.opened then return rerr EINVAL
       if x.node == tx.node && m.str 1 == m.str 3 then return rmsg 75
-      match ← call x.file "RenameAt" [tx.file] [m.str 1, m.str 3] with
+      match ← call x.file "RenameAt" [tx.file] [] [oldName, newName] with
       | .err e => return rerr e
       | .panic => return rerr EIO
       | .ok _ _ _ =>
-        renameChildTo ref (m.str 1) target (m.str 3)
+        renameChildTo ref oldName target newName
         return rmsg 75
+  else return rerr EINVAL
+  else return rerr EINVAL
 
 def hTunlinkat (m : Msg) : M Reply := do
   -- dirfd name flags
-  if !safeName (m.str 1) then return rerr EINVAL
+  if hn : safeName (m.str 1) = true then
+  let name : SafeName := ⟨m.str 1, hn⟩
   withFid (m.int 0) fun ref => do
     match ← dirGuard ref with
     | some e => return rerr e
     | none =>
       let x ← getRef ref
-      let _ ← pathNodeFor x.node (m.str 1)
-      match ← call x.file "UnlinkAt" [m.int 2] [m.str 1] with
+      let _ ← pathNodeFor x.node name
+      match ← call x.file "UnlinkAt" [m.int 2] [] [name] with
       | .err e => return rerr e
       | .panic => return rerr EIO
       | .ok _ _ _ =>
-        markChildDeleted x.node (m.str 1)
+        markChildDeleted x.node name
         return rmsg 77
+  else return rerr EINVAL
 
 def hTrename (m : Msg) : M Reply := do
   -- fid dfid name
-  if !safeName (m.str 2) then return rerr EINVAL
+  if hn : safeName (m.str 2) = true then
+  let newName : SafeName := ⟨m.str 2, hn⟩
   withFid (m.int 0) fun ref =>
     withFid (m.int 1) fun target => do
       let x ← getRef ref
@@ -300,13 +312,14 @@ def hTrename (m : Msg) : M Reply := do
         if ← isDeleted p then goPanic
         let px ← getRef p
         let oldName ← nameFor px.node ref
-        if px.node == tx.node && oldName == m.str 2 then return rmsg 21
-        match ← call px.file "RenameAt" [tx.file] [oldName, m.str 2] with
+        if px.node == tx.node && oldName == newName then return rmsg 21
+        match ← call px.file "RenameAt" [tx.file] [] [oldName, newName] with
         | .err e => return rerr e
         | .panic => return rerr EIO
         | .ok _ _ _ =>
-          renameChildTo p oldName target (m.str 2)
+          renameChildTo p oldName target newName
           return rmsg 21
+  else return rerr EINVAL
 
 def hTremove (m : Msg) : M Reply := do
   match ← lookupFid (m.int 0) with
@@ -321,7 +334,7 @@ def hTremove (m : Msg) : M Reply := do
           if ← isDeleted ref then return EINVAL
           let px ← getRef p
           let name ← nameFor px.node ref
-          match ← call px.file "UnlinkAt" [0] [name] with
+          match ← call px.file "UnlinkAt" [0] [] [name] with
           | .err e => return e
           | .panic => return EIO
           | .ok _ _ _ =>
@@ -425,7 +438,7 @@ def hTxattrwalk (m : Msg) : M Reply :=
       if buf.length > maxLen then return rerr EINVAL
       -- after the D2 `fix:`: the xattr fid gets a File of its own (a clone)
       let s0 ← getS
-      match ← call x.file "Walk" [] [] with
+      match ← call x.file "Walk" [] [] [] with
       | .err e => return rerr e
       | .panic => return rerr EIO
       | .ok _ _ _ =>
